@@ -71,6 +71,18 @@ fn run_pool_buf(size: u32, fill: usize, limit: Option<usize>, out: &mut Vec<Viol
         (0..pb.entries as usize).map(|i| unsafe { std::ptr::read_volatile((pb.addr + i * 16) as *const crate::abi::BufRingEntry) }).map(|e| (e.addr as usize, e.len as usize)).find(|(a, l)| (buf.as_ptr() as usize) >= *a && (buf.as_ptr() as usize) < *a + *l)
     });
     let what = "ReadBuf";
+    {
+        // A ReadBuf that has no buffer yet (fresh from the pool): nothing exposed, nothing spare.
+        let mut fresh = pool.get();
+        let (wp, wl) = unsafe { BufMut::parts_mut(&mut fresh) };
+        let (sc, has) = (BufMut::spare_capacity(&fresh), BufMut::has_spare_capacity(&fresh));
+        let (rp, rl) = unsafe { Buf::parts(&fresh) };
+        let _ = (wp, rp);
+        if wl != sc || has != (wl > 0) || rl as usize != Buf::len(&fresh) || rl != 0 {
+            out.push(v(&format!("pool-buf/unassigned/{what}"), format!("a ReadBuf without a buffer: parts_mut() exposes {wl} bytes, spare_capacity() = {sc}, has_spare_capacity() = {has}; parts() exposes {rl} bytes, len() = {}", Buf::len(&fresh))));
+        }
+        drop(fresh);
+    }
     let Some((base, cap)) = slot else {
         out.push(v("pool-buf/outside-slot", format!("a {size}-byte pool buffer filled with {fill} bytes points at {:#x}, inside no buffer of its pool", buf.as_ptr() as usize)));
         std::mem::forget(buf);
